@@ -47,6 +47,9 @@ type Ctl struct {
 	Site  string // site of the fired fault
 	dead  bool   // the process has crashed: everything passes through unrecorded (deferred cleanups)
 	Off   bool   // harness-side environment operations: pass through unrecorded
+	// OnCommit, if set, is called after every successful transaction commit (the environment
+	// reacts to a processed block).
+	OnCommit func()
 }
 
 // NoErrorResult lists the calls that cannot report an error (error-return is not applicable).
@@ -311,6 +314,9 @@ func (t *ProxyTxn) Commit() error {
 	}
 	err := t.T.Commit()
 	t.C.leave(k)
+	if err == nil && t.C != nil && t.C.OnCommit != nil && !t.C.dead && !t.C.Off {
+		t.C.OnCommit()
+	}
 	return err
 }
 
